@@ -292,15 +292,18 @@ Section Walk.
                   if denied then
                     let e := [{| ge_kind := EK_UNAUTHORIZED; ge_path := push_names path' (node_path child) |}] in
                     if node_nullable child then
-                      let value' :=
-                        match node_path child with
-                        | [] => value
-                        | cp => match get_path cp value with
-                                | Some _ => set_path cp JNull value
-                                | None => value
-                                end
-                        end in
-                      let '(v2, e2, s2) := floop rest value' in (v2, e ++ e2, s2)
+                      match node_path child with
+                      | [] =>
+                        (* value.Get() with no key is the enclosing object itself (never nil), and
+                           astjson.SetNull with an empty path indexes path[-1]: the walk panics *)
+                        (value, e, Some (false, WPanic))
+                      | cp =>
+                        let value' := match get_path cp value with
+                                      | Some _ => set_path cp JNull value
+                                      | None => value
+                                      end in
+                        let '(v2, e2, s2) := floop rest value' in (v2, e ++ e2, s2)
+                      end
                     else if nl && (match p with [] => false | _ => true end) then (value, e, Some (true, WOk))
                     else (value, e, Some (false, WErr))
                   else
